@@ -10,10 +10,10 @@ def run(tier):
     lmax, big = (1000, 1) if thorough else (160, 1)
     nproc = min(14, NCPU)
     wd = workdir("aead")
-    for cfg in (["stable", "nightly"] if thorough else ["stable", "nightly"]):
-        for s in range(5 if thorough else 1):
+    for cfg in ["stable", "nightly", RELEASE]:
+        for s in range(5 if thorough and cfg != RELEASE else 1):
             reps = parallel(cfg, lambda o, k, n: ["aead-roundtrip", cf, o, ck.seed + s, lmax, big, k, n], nproc, os.path.join(wd, "rt_" + cfg))
-            route(ck, reps, "" if cfg == "stable" else "[nightly] ", [""])
+            route(ck, reps, "" if cfg == "stable" else "[%s] " % cfg, [""])
     # operands crafted so that the Poly1305 run over the ciphertext passes through rare accumulator states
     import polycraft, json
     vecs = polycraft.vectors(6 if thorough else 2)
